@@ -56,8 +56,10 @@ impl<'a> G<'a> {
     fn tp(&mut self) { if self.open_parens > 0 { self.trunc_points.push((self.out.len(), self.open_parens, self.open_calls)); } }
     fn anchor(&mut self) -> usize { self.anchors.push(self.out.len()); self.anchors.len() - 1 }
     // insignificant whitespace/comments (hidden)
-    fn ows(&mut self) { match self.u.below(8) { 0 | 1 | 2 | 3 => {} 4 => self.mark(" ", MK::HiddenWs), 5 => self.mark("\n", MK::HiddenWs), 6 => self.mark("  \t", MK::HiddenWs), _ => { self.mark("/*c,=;)*/", MK::HiddenWs); self.feat("comment-in-gap"); } } }
-    fn rws(&mut self) { match self.u.below(4) { 0 | 1 => self.mark(" ", MK::HiddenWs), 2 => self.mark("\n", MK::HiddenWs), _ => self.mark(" /*c*/ ", MK::HiddenWs) } }
+    fn ows(&mut self) { match self.u.below(9) { 0 | 1 | 2 | 3 => {} 4 => self.mark(" ", MK::HiddenWs), 5 => self.mark("\n", MK::HiddenWs), 6 => self.mark("  \t", MK::HiddenWs), 7 => { self.uws(); } _ => { self.mark("/*c,=;)*/", MK::HiddenWs); self.feat("comment-in-gap"); } } }
+    fn rws(&mut self) { match self.u.below(9) { 0 | 1 | 2 | 3 => self.mark(" ", MK::HiddenWs), 4 | 5 => self.mark("\n", MK::HiddenWs), 6 => self.uws(), _ => self.mark(" /*c*/ ", MK::HiddenWs) } }
+    // whitespace that is not ASCII (the lexer's whitespace is Unicode White_Space)
+    fn uws(&mut self) { self.feat("non-ascii-whitespace-gap"); let w = self.pick(&["\u{a0}", "\u{2003}", "\u{b}", "\u{3000} ", "\u{85}", " \u{2028}", "\u{c}", "\u{1680}\t"]); self.mark(w, MK::HiddenWs); }
     fn plain_ws(&mut self) { let w = match self.u.below(4) { 0 | 1 => " ", 2 => "\n", _ => "  " }; self.p(w); }
 
     pub fn program(&mut self) { let n = 1 + self.u.below(5); for _ in 0..n { self.stmt(); if self.u.coin(1, 2) { self.plain_ws(); } } }
@@ -150,7 +152,7 @@ impl<'a> G<'a> {
         self.d_inc(); if self.u.coin(1, 2) { self.let_stmt(); } else { self.put_stmt(); } self.depth -= 1;
         self.p(" e"); self.tp(); self.p("\"");
     }
-    fn mvar(&mut self, dots: bool) { self.feat("mvar"); let v = self.pick(MVARS); match self.u.below(if dots { 12 } else { 8 }) { 0 | 1 => { self.p("&"); self.p(v); } 2 => { self.p("&"); self.p(v); self.p("."); } 3 => { self.p("&&"); self.p(v); self.p("&i"); } 4 => { self.p("&&&"); self.p(v); } 5 => { self.feat("mvar-forms"); self.p("&&&&"); self.p(v); self.p("."); } 6 => { self.feat("mvar-forms"); self.p("&"); self.p(v); self.p(".&"); self.p(v); self.p("."); } 7 => { self.feat("mvar-forms"); self.p("&&"); self.p(v); self.p("&&i."); } 8 => { self.p("&"); self.p(v); self.p("&n1.."); } 9 => { self.feat("mvar-forms"); self.p("&"); self.p(v); self.p("._x"); } 10 => { self.feat("mvar-forms"); self.p("&&pre&i.._suf"); } _ => { self.feat("mvar-forms"); self.p("&"); self.p(v); self.p("..x"); } } }
+    fn mvar(&mut self, dots: bool) { self.feat("mvar"); let v = self.pick(MVARS); match self.u.below(if dots { 12 } else { 8 }) { 0 if self.u.coin(1, 3) => { self.feat("mvar-odd-continuation-run"); let f = self.pick(&["&a&&&b..c", "&a&&&&&b..z", "&a&&&&&&&b...z", "&&&a&&&b..z", "&a&&&b.c", "&v&&&&&&w.."]); self.p(f); } 0 | 1 => { self.p("&"); self.p(v); } 2 => { self.p("&"); self.p(v); self.p("."); } 3 => { self.p("&&"); self.p(v); self.p("&i"); } 4 => { self.p("&&&"); self.p(v); } 5 => { self.feat("mvar-forms"); self.p("&&&&"); self.p(v); self.p("."); } 6 => { self.feat("mvar-forms"); self.p("&"); self.p(v); self.p(".&"); self.p(v); self.p("."); } 7 => { self.feat("mvar-forms"); self.p("&&"); self.p(v); self.p("&&i."); } 8 => { self.p("&"); self.p(v); self.p("&n1.."); } 9 => { self.feat("mvar-forms"); self.p("&"); self.p(v); self.p("._x"); } 10 => { self.feat("mvar-forms"); self.p("&&pre&i.._suf"); } _ => { self.feat("mvar-forms"); self.p("&"); self.p(v); self.p("..x"); } } }
 
     // ---------- macro calls
     // ctx: 0 = open code / text, 1 = inside string expr, 2 = inside macro arg/value
@@ -173,6 +175,7 @@ impl<'a> G<'a> {
                     0 => { self.feat("named-arg-name-mvar"); let an = self.pick(&["a", "k", "opt"]); self.p(an); self.mvar(false); }
                     1 => { self.feat("named-arg-name-mvar"); self.mvar(false); }
                     2 => { self.feat("named-arg-name-call"); self.p("%"); let m = self.pick(CALLNAMES); self.p(m); }
+                    3 if self.u.coin(1, 3) => { self.feat("named-arg-name-call"); self.p("%"); let m = self.pick(CALLNAMES); self.p(m); if self.u.coin(1, 2) { self.mvar(false); } else { self.p("%"); let m = self.pick(CALLNAMES); self.p(m); } }
                     3 => { self.feat("named-arg-name-call"); let an = self.pick(&["pre", "k_"]); self.p(an); self.p("%"); let m = self.pick(CALLNAMES); self.p(m); if self.u.coin(1, 3) { self.p("()"); } }
                     _ => { let an = self.pick(IDENTS); let an = if an.is_ascii() { an } else { "k" }; self.p(an); }
                 }
@@ -261,9 +264,19 @@ impl<'a> G<'a> {
         self.pk("%end"); self.ows(); self.del_mark(";", "SEMI", "MissingExpectedSemiOrEOF", false);
     }
     pub fn builtin_call(&mut self, _ctx: usize) {
+        let k = if self.depth > 4 { 0 } else { self.u.below(12) };
+        self.builtin_k(k);
+    }
+    // a built-in whose result may form (part of) a macro name: everything but the quoting functions
+    fn name_builtin(&mut self) {
+        self.feat("name-expr-builtin");
+        let k = [0, 2, 3, 5, 6, 6, 9][self.u.below(7)];
+        self.d_inc(); self.builtin_k(k); self.depth -= 1;
+    }
+    fn builtin_k(&mut self, k: usize) {
         self.feat("builtin");
         self.d_inc();
-        match if self.depth > 5 { 0 } else { self.u.below(12) } {
+        match k {
             0 => { self.pk("%eval"); self.ows(); self.del_mark("(", "LPAREN", "MissingExpectedLParen", false); self.ows(); self.eval_expr(false, false); self.ows_after_expr(); self.mark(")", MK::Delim("RPAREN", false)); }
             1 => { self.feat("sysevalf"); self.pk("%sysevalf"); self.ows(); self.del_mark("(", "LPAREN", "MissingExpectedLParen", false); self.ows(); self.eval_expr(true, true); if self.u.coin(1, 3) { self.mark(",", MK::Delim("COMMA", false)); self.ows(); self.p("boolean"); } self.mark(")", MK::Delim("RPAREN", false)); }
             2 => { self.feat("scan"); let nm = self.pick(&["%scan", "%qscan", "%SCAN", "%kscan", "%qkscan", "%QKScan"]); self.p(nm); self.ows(); self.del_mark("(", "LPAREN", "MissingExpectedLParen", false); self.ows(); self.bvalue(); let close_anchor_needed = self.out.len(); let _ = close_anchor_needed; let di = self.dels.len(); self.del_mark(",", "COMMA", "MissingExpectedComma", false); self.ows(); self.eval_expr(false, true); if self.u.coin(1, 2) { self.mark(",", MK::Delim("COMMA", false)); self.ows(); if self.u.coin(1, 2) { self.p("|"); self.mark("(", MK::Masked); self.p(" "); self.mark(")", MK::Masked); } else { self.bvalue(); } if self.u.coin(1, 2) { self.feat("scan-modifiers"); self.mark(",", MK::Delim("COMMA", false)); self.ows(); if self.u.coin(1, 2) { self.p("m"); } else { self.bvalue(); } } self.dels.remove(di); } else { let a = self.anchor(); self.dels[di].at_mark = Some(a); } self.mark(")", MK::Delim("RPAREN", false)); }
@@ -375,7 +388,7 @@ impl<'a> G<'a> {
             }
         }
     }
-    fn name_expr(&mut self) { match self.u.below(6) { 5 => { self.feat("name-expr-call"); self.p("%"); let m = self.pick(CALLNAMES); self.p(m); self.p("(a)"); if self.u.coin(1, 2) { self.p("_s"); } } 0 | 1 => { let v = self.pick(MVARS); self.p(v); } 2 => { let v = self.pick(MVARS); self.p(v); self.mvar(false); } 3 => { self.mvar(false); } _ => { let v = self.pick(MVARS); self.p(v); self.p("_"); self.p("&i."); self.p("x"); } } }
+    fn name_expr(&mut self) { match self.u.below(8) { 6 => { self.name_builtin(); if self.u.coin(1, 2) { self.p("_s"); } } 7 => { let v = self.pick(MVARS); self.p(v); self.name_builtin(); } 5 => { self.feat("name-expr-call"); self.p("%"); let m = self.pick(CALLNAMES); self.p(m); self.p("(a)"); if self.u.coin(1, 2) { self.p("_s"); } } 0 | 1 => { let v = self.pick(MVARS); self.p(v); } 2 => { let v = self.pick(MVARS); self.p(v); self.mvar(false); } 3 => { self.mvar(false); } _ => { let v = self.pick(MVARS); self.p(v); self.p("_"); self.p("&i."); self.p("x"); } } }
     fn let_stmt(&mut self) { self.feat("let"); self.pk("%let"); self.rws(); self.name_expr(); self.ows(); self.del_mark("=", "ASSIGN", "MissingExpectedAssign", false); if self.u.coin(1, 6) { self.quote_call(); } else { self.ows(); } self.text_expr(); self.mark(";", MK::Delim("SEMI", false)); }
     // a macro quoting function directly after the '=' (it cannot continue a name expression, so a left-out '=' is still
     // diagnosed right after the name even without a blank in its place)
